@@ -387,13 +387,21 @@ func writeLinkEvents(dir string, opts GlobalOptions, eventType string, edges []s
 	})
 }
 
-func createTask(dir string, opts GlobalOptions, epicID string, isEpic bool, title, body string) (createOutput, error) {
-	eventsPath := getEventsPath(dir)
-	lockPath := filepath.Join(dir, "lock")
-	return createTaskWithDir(dir, opts, lockPath, eventsPath, epicID, isEpic, title, body)
+// taskFollowUp carries the state/claim/result fields given together with `new task`. They are validated
+// against the new task and recorded in the same lock section and the same append as its creation, so
+// the command creates the task with all of them or creates nothing.
+type taskFollowUp struct {
+	updates map[string]string
+	agentID string
 }
 
-func createTaskWithDir(dir string, opts GlobalOptions, lockPath, eventsPath, epicID string, isEpic bool, title, body string) (createOutput, error) {
+func createTask(dir string, opts GlobalOptions, epicID string, isEpic bool, title, body string, followUp ...taskFollowUp) (createOutput, error) {
+	eventsPath := getEventsPath(dir)
+	lockPath := filepath.Join(dir, "lock")
+	return createTaskWithDir(dir, opts, lockPath, eventsPath, epicID, isEpic, title, body, followUp...)
+}
+
+func createTaskWithDir(dir string, opts GlobalOptions, lockPath, eventsPath, epicID string, isEpic bool, title, body string, followUp ...taskFollowUp) (createOutput, error) {
 	var output createOutput
 	err := withLock(lockPath, syscall.LOCK_EX, func() error {
 		graph, err := loadGraph(dir)
@@ -441,7 +449,29 @@ func createTaskWithDir(dir string, opts GlobalOptions, lockPath, eventsPath, epi
 		if err != nil {
 			return err
 		}
-		if err := appendEvents(eventsPath, []Event{event}); err != nil {
+		events := []Event{event}
+		state := stateTodo
+		for _, fu := range followUp {
+			if len(fu.updates) == 0 {
+				continue
+			}
+			task := &Task{ID: id, UUID: uuid, EpicID: payload.EpicID, IsEpic: isEpic, State: stateTodo, Title: title, Body: body, CreatedAt: now, UpdatedAt: now}
+			graph.Tasks[id] = task
+			more, err := buildUpdateEvents(dir, graph, id, task, fu.updates, fu.agentID, now)
+			if err != nil {
+				return err
+			}
+			events = append(events, more...)
+			for _, e := range more {
+				if e.Type == "state" {
+					var data StateEvent
+					if err := json.Unmarshal(e.Data, &data); err == nil {
+						state = data.NewState // the reply reports the task as a following read shows it
+					}
+				}
+			}
+		}
+		if err := appendEvents(eventsPath, events); err != nil {
 			return err
 		}
 		kind := "task"
@@ -453,7 +483,7 @@ func createTaskWithDir(dir string, opts GlobalOptions, lockPath, eventsPath, epi
 			ID:        id,
 			UUID:      uuid,
 			EpicID:    payload.EpicID,
-			State:     stateTodo,
+			State:     state,
 			Title:     title,
 			Body:      body,
 			CreatedAt: payload.CreatedAt,
